@@ -427,17 +427,17 @@ fn unfit_field(sf: Fmt, i: &RawInstr) -> Option<&'static str> {
     match sf {
         Fmt::AnmV0 | Fmt::Msg => {
             if t16 { return Some("time"); }
-            if i.opcode > 127 { return Some("opcode"); }
+            if i.opcode > 255 { return Some("opcode"); }
             if i.args_blob.len() > 255 { return Some("size"); }
         }
         Fmt::AnmV2 => { if t16 { return Some("time"); } if size > 65535 { return Some("size"); } if i.opcode == 65535 { return Some("end-marker"); } }
         Fmt::Std06 => { if i.opcode == 65535 { return Some("end-marker"); } }
         Fmt::Std10 => { if size > 65535 { return Some("size"); } if i.opcode == 65535 { return Some("end-marker"); } }
         Fmt::Ecl06 | Fmt::Ecl06Th06 => {
-            if size > 32767 { return Some("size"); }
+            if size > 65535 { return Some("size"); }
             if i.opcode == 65535 { return Some("end-marker"); }
         }
-        Fmt::Tl06 => { if t16 { return Some("time"); } if size > 32767 { return Some("size"); } if i.time == -1 && i.extra_arg.unwrap_or(0) == 4 { return Some("end-marker"); } }
+        Fmt::Tl06 => { if t16 { return Some("time"); } if size > 65535 { return Some("size"); } if i.time == -1 && i.extra_arg.unwrap_or(0) == 4 { return Some("end-marker"); } }
         Fmt::Tl08 => { if size > 255 { return Some("size"); } }
         Fmt::Ecl10 => { if size > 65535 { return Some("size"); } }
     }
@@ -592,6 +592,21 @@ fn gen_src_instr(sf: Fmt, rng: &mut Rng, big: bool) -> SrcInstr {
 }
 
 fn gen_src_script(sf: Fmt, rng: &mut Rng, big: bool) -> Vec<SrcInstr> {
+    let l = gen_src_script_raw(sf, rng, big);
+    // three sources in four ask only for values that fit (boundaries included); the fourth keeps one
+    // out-of-range item, for which the compiler must produce a diagnostic
+    let keep_bad = if rng.chance(1, 4) { Some(rng.below(l.len() as u64) as usize) } else { None };
+    let mut out = vec![];
+    let mut t_shift = false;
+    for (k, mut i) in l.into_iter().enumerate() {
+        if Some(k) != keep_bad { sanitize(sf, &mut i, rng); }
+        let _ = &mut t_shift;
+        out.push(i);
+    }
+    out
+}
+
+fn gen_src_script_raw(sf: Fmt, rng: &mut Rng, big: bool) -> Vec<SrcInstr> {
     let n = 1 + rng.below(4) as usize;
     let mut t = 0i32;
     let mut l = vec![];
@@ -606,6 +621,31 @@ fn gen_src_script(sf: Fmt, rng: &mut Rng, big: bool) -> Vec<SrcInstr> {
     l
 }
 
+/// move every out-of-range value of `i` to the nearest boundary that its format can hold
+fn sanitize(sf: Fmt, i: &mut SrcInstr, rng: &mut Rng) {
+    if let Some(m) = i.mask { if m > 65535 { i.mask = Some(65535); } }
+    if let Some(m) = i.pop { if m > 255 { i.pop = Some(255); } }
+    if let Some(m) = i.argc { if m > 255 { i.argc = Some(255); } }
+    if let Some(m) = i.extra { i.extra = Some(m.clamp(-32768, 32767)); }
+    if let Some((_, n)) = &i.alias { if *n < 0 || *n > 65534 { i.alias = None; } }
+    for _ in 0..8 {
+        let ri = RawInstr { time: i.time, opcode: i.opcode, param_mask: if sf == Fmt::Ecl06Th06 { 0xff } else { 0 }, args_blob: i.blob.clone(), difficulty: 0xff,
+                            pop: 0, extra_arg: i.extra.map(|x| x as i16), arg_count: 0 };
+        match unfit_field(sf, &ri) {
+            Some("time") => i.time = *rng.pick(&[32767, -32768, 255, -1, 0]),
+            Some("opcode") => i.opcode = *rng.pick(&[127u16, 128, 200, 255]),
+            Some("end-marker") => { if sf == Fmt::Tl06 { i.time = 0; } else { i.opcode = 65534; } }
+            Some("size") => {
+                let max_args = match sf { Fmt::AnmV0 | Fmt::Msg => 252, Fmt::Tl08 => 244, _ => (65535 - sf.hdr()) / 4 * 4 };
+                let fill = i.blob.first().copied().unwrap_or(0);
+                i.blob = vec![fill; max_args - 4 * rng.below(2) as usize];
+            }
+            _ => break,
+        }
+    }
+    if sf == Fmt::Std06 && i.blob.len() != 12 { i.blob = vec![7; 12]; }
+}
+
 struct SrcCase { fmt: Fmt, game: Game, text: String, scripts: Vec<(Fmt, Vec<SrcInstr>)>, note: String }
 
 fn src_case(fmt: Fmt, game: Game, rng: &mut Rng, big: bool) -> SrcCase {
@@ -617,10 +657,13 @@ fn src_case(fmt: Fmt, game: Game, rng: &mut Rng, big: bool) -> SrcCase {
             let nscripts = 1 + rng.below(3) as usize;
             let nsprites = *rng.pick(&[0usize, 1, 2, 3]);
             let mut meta = vec!["path: \"a.png\"".to_string(), "has_data: false".into(), "img_width: 16".into(), "img_height: 16".into(), "img_format: 1".into()];
-            if rng.chance(1, 4) { let v = *rng.pick(&[256i64, 65535, 65536, 70000]); meta.push(format!("rt_width: {}", v)); write!(note, " rt_width={}", v).unwrap(); }
-            if rng.chance(1, 6) { let v = *rng.pick(&[256i64, 65536, 131072]); meta.push(format!("rt_height: {}", v)); write!(note, " rt_height={}", v).unwrap(); }
-            if rng.chance(1, 6) { let v = *rng.pick(&[0i64, 65535, 65536, 70000]); meta.push(format!("offset_x: {}", v)); write!(note, " offset_x={}", v).unwrap(); }
+            if rng.chance(1, 4) { let v = *rng.pick(&[256i64, 65535, 32768, 512, 65536]); meta.push(format!("rt_width: {}", v)); write!(note, " rt_width={}", v).unwrap(); }
+            if rng.chance(1, 6) { let v = *rng.pick(&[256i64, 65535, 1024, 131072]); meta.push(format!("rt_height: {}", v)); write!(note, " rt_height={}", v).unwrap(); }
+            if rng.chance(1, 6) { let v = *rng.pick(&[0i64, 65535, 9, 300, 70000]); meta.push(format!("offset_x: {}", v)); write!(note, " offset_x={}", v).unwrap(); }
             if rng.chance(1, 8) { let v = *rng.pick(&[0i64, 10, 4294967295]); meta.push(format!("memory_priority: {}", v)); }
+            if rng.chance(1, 10) { let v = *rng.pick(&[0i64, 7, 65536]); meta.push(format!("offset_y: {}", v)); write!(note, " offset_y={}", v).unwrap(); }
+            if rng.chance(1, 10) { meta.push("colorkey: 0xff00ff".to_string()); note.push_str(" colorkey"); }
+            if rng.chance(1, 12) { meta.push("low_res_scale: true".to_string()); note.push_str(" low_res_scale"); }
             let sprites = (0..nsprites).map(|k| format!("sp{}: {{x: {}.0, y: 0.0, w: 4.0, h: 4.0}}", k, k)).collect::<Vec<_>>().join(", ");
             meta.push(format!("sprites: {{{}}}", sprites));
             writeln!(text, "entry {{ {} }}", meta.join(", ")).unwrap();
@@ -844,7 +887,7 @@ fn check_source(fmt: Fmt, game: Game, text: &str, asked: Option<&[(Fmt, Vec<SrcI
                 }
             }
         }
-        compare_meta(fmt, mem, back_file, &short_input, note);
+        compare_meta(fmt, game, mem, back_file, &short_input, note);
     } else {
         // sources that rely on built-in signatures cannot be compiled in-process (core mapfiles are private to truth)
         stats.bump(&format!("src-{}:no-inprocess-compile", fmt.name()));
@@ -904,7 +947,7 @@ fn src_field(asked: Option<&[(Fmt, Vec<SrcInstr>)]>, script: Option<usize>) -> S
 }
 
 /// file-level metadata: compiled (in memory) vs read back
-fn compare_meta(fmt: Fmt, mem: &FileBox, back: &FileBox, input: &str, note: &str) {
+fn compare_meta(fmt: Fmt, game: Game, mem: &FileBox, back: &FileBox, input: &str, note: &str) {
     match (mem, back) {
         (FileBox::Anm(a), FileBox::Anm(b)) => {
             if a.entries.len() != b.entries.len() { println!("ORACLE-FAIL\tc03 format={} field=entry-count\t{} entries compiled, {} read back\t{}", fmt.name(), a.entries.len(), b.entries.len(), input); return; }
@@ -913,7 +956,9 @@ fn compare_meta(fmt: Fmt, mem: &FileBox, back: &FileBox, input: &str, note: &str
                 for (name, u, v) in [("rt_width", s.rt_width, t.rt_width), ("rt_height", s.rt_height, t.rt_height), ("rt_format", s.rt_format, t.rt_format),
                                      ("offset_x", s.offset_x, t.offset_x), ("offset_y", s.offset_y, t.offset_y), ("memory_priority", s.memory_priority, t.memory_priority),
                                      ("colorkey", s.colorkey, t.colorkey), ("low_res_scale", s.low_res_scale as u32, t.low_res_scale as u32)] {
-                    if u != v { println!("ORACLE-FAIL\tc03 format={} field=entry.{}\tentry {}: compiled {} = {}, file reads back {}{}\t{}", fmt.name(), name, k, name, u, v, note, input); }
+                    // the entry header layout changes with TH11 (Version::is_old_header), not with the instruction format
+                    let hdr = if game < Game::Th11 { "anm-hdr-old" } else { "anm-hdr-new" };
+                    if u != v { println!("ORACLE-FAIL\tc03 format={} field=entry.{}\tentry {}: compiled {} = {}, file reads back {}{}\t{}", hdr, name, k, name, u, v, note, input); }
                 }
                 if x.path.value != y.path.value { println!("ORACLE-FAIL\tc03 format={} field=entry.path\tentry {} path differs\t{}", fmt.name(), k, input); }
                 if x.sprites.len() != y.sprites.len() { println!("ORACLE-FAIL\tc03 format={} field=sprite-count\tentry {}: {} sprites compiled, {} read back\t{}", fmt.name(), k, x.sprites.len(), y.sprites.len(), input); }
